@@ -183,13 +183,18 @@ def _cmp_relation(term, s_root, t_root):
 
 def run_pointwise(ctx, chk, tables):
     labels = Sym("labels", ("param", "array", "notnone"))
-    scores = Sym("scores", ("param", "array", "notnone"))
+    scores = Sym("scores", ("param", "array", "notnone", "rawdtype"))
     thr = Sym("threshold", ("param", "array", "notnone"))
     plab = Sym("pos_label", ("param_scalar", "notnone"))
     fn = ctx.fn(PWQ)
     for sc, ec in GAMMAS:
         outs = ctx.explore(lambda: ctx.ev.call(fn, [labels, scores, thr], {"pos_label": plab, "score_class": Const(sc), "equal_class": Const(ec)}), chk)
         rets = returns(outs)
+        raw = [e for o in rets for e in o.events if e["kind"] == "raw_arith"]
+        if raw:
+            e = raw[0]
+            chk.violation("R01.3", PWQ, "%s/%s:raw-dtype-arithmetic" % (sc, ec), "%s on the caller's score array (%s)" % (e["op"], e.get("text", "")[:80]),
+                          "scores are only compared (negating / subtracting unsigned-integer scores wraps around)", "%s line %s" % (ctx.where(PWQ), getattr(e.get("node"), "lineno", "?")))
         if len(rets) != 1 or rets[0].unmodelled:
             chk.unknown("R01.3", "pointwise_cm %s/%s: %d return paths, unmodelled=%s" % (sc, ec, len(rets), rets and unmodelled_text(rets[0])))
             continue
@@ -227,8 +232,8 @@ def run_pointwise(ctx, chk, tables):
 
 def constructor_sorted(ctx, chk):
     """Scores.__init__ / GroupScores.__init__ leave pos and neg ascending unless is_sorted."""
-    P = Sym("p_in", ("param", "array", "notnone"))
-    N = Sym("n_in", ("param", "array", "notnone"))
+    P = Sym("p_in", ("param", "array", "notnone", "rawdtype"))
+    N = Sym("n_in", ("param", "array", "notnone", "rawdtype"))
     for cls, kw in ((SCORES, {}), (GROUP, {"pos_groups": Sym("pg", ("param", "array", "notnone")), "neg_groups": Sym("ng", ("param", "array", "notnone"))})):
         ci = ctx.db.cls(cls)
         init = cls + ".__init__"
@@ -240,6 +245,12 @@ def constructor_sorted(ctx, chk):
             rets = returns(outs)
             if not rets:
                 chk.unknown("R01.4", "%s has no normal return path" % init)
+            raw = [e for o in rets for e in o.events if e["kind"] == "raw_arith"]
+            if raw:
+                e = raw[0]
+                chk.violation("R01.4", init, "%s:raw-dtype-arithmetic" % init.split(".")[-2], "%s on the caller's score array (%s)" % (e["op"], e.get("text", "")[:80]),
+                              "no sign-sensitive arithmetic on scores in the caller's dtype: for unsigned-integer scores a difference wraps around "
+                              "(an unsorted array passes `diff >= 0`)", "%s line %s" % (ctx.where(init), getattr(e.get("node"), "lineno", "?")))
             for o in rets:
                 for attr in ("pos", "neg"):
                     v = o.value.attrs.get(attr)
